@@ -369,18 +369,22 @@ func selects() {
 		}
 		slow <- 1
 	}()
-	polls := 0
+	// bounded progress: a goroutine that waits by polling with Gosched must let the one it
+	// waits for run; a million polls without progress is reported instead of spinning on
+	polls, res := 0, "done"
 	for got := false; !got; {
 		select {
 		case <-slow:
 			got = true
 		default:
 			polls++
+			if polls > 1000000 {
+				got, res = true, "gave-up-after-a-million-polls"
+			}
 			runtime.Gosched()
 		}
 	}
-	_ = polls
-	emit("select-poll", "done")
+	emit("select-poll", res)
 }
 
 // pingpong and rendezvous
@@ -439,7 +443,72 @@ func misc() {
 	emit("numgoroutine", itoa(before)+" "+btoa(mid)+" "+itoa(runtime.NumGoroutine()-before))
 }
 
+// pollers: goroutines that wait by polling (select with default, or a flag read after
+// Gosched) must let the goroutines they wait for make progress, whatever mixture of
+// yielding, blocked and finished goroutines surrounds them. Progress is bounded: a million
+// polls without a change are reported.
+func pollers() {
+	workers := 1 + int(N)%3
+	stage := make([]I, workers)
+	done := make(chan I, workers)
+	for w := 0; w < workers; w++ {
+		w := w
+		go func() {
+			for k := 0; k <= w+int(M)%4; k++ {
+				stage[w]++
+				runtime.Gosched()
+			}
+			done <- I(w)
+		}()
+	}
+	// one goroutine blocked for good on a channel nobody uses, one that exits at once
+	idle := make(chan I)
+	go func() { <-idle }()
+	go func() {}()
+	seen, polls, res := 0, 0, ""
+	for seen < workers {
+		select {
+		case w := <-done:
+			seen++
+			res += itoa(int(w)) + ":" + itoa(int(stage[w])) + ";"
+		default:
+			polls++
+			if polls > 1000000 {
+				res += "gave-up-after-a-million-polls"
+				seen = workers
+			}
+			runtime.Gosched()
+		}
+	}
+	// order of completion is not fixed: report the multiset
+	sum := 0
+	for w := 0; w < workers; w++ {
+		sum += int(stage[w])
+	}
+	gave := "ok"
+	if polls > 1000000 {
+		gave = "gave-up"
+	}
+	emit("pollers", itoa(workers)+" "+itoa(sum)+" "+gave)
+	_ = res
+	close(idle) // nothing is left behind for the later scenarios
+	// polling a flag written by a goroutine that itself yields
+	flag := I(0)
+	go func() {
+		runtime.Gosched()
+		runtime.Gosched()
+		flag = 1
+	}()
+	spins := 0
+	for flag == 0 && spins <= 1000000 {
+		spins++
+		runtime.Gosched()
+	}
+	emit("poll-flag", itoa(int(flag)))
+}
+
 func main() {
+	pollers()
 	pipeline()
 	fanout()
 	pool()
